@@ -240,7 +240,7 @@ func (m *mavenExtension) init(input string) error {
 // isEmptyMavenElem reports whether is defined to be equivalent
 // to the empty string for the purpose of ordering.
 func isEmptyMavenElem(s string) bool {
-	if s == "0" {
+	if s != "" && strings.Trim(s, "0") == "" { // "0", "00", ...
 		return true
 	}
 	return mavenVersionQualifierOrder[s] == mavenEmptyQualifier
@@ -313,7 +313,11 @@ func (m *mavenExtension) compare(e extension) int {
 			if a.sep != b.sep {
 				return int(a.sep) - int(b.sep) // Magic: '-'+1 = '.'.
 			}
-			return sgn64(a.int, b.int)
+			// Equal numbers may be spelled differently ("01" and "1").
+			if c := sgn64(a.int, b.int); c != 0 {
+				return c
+			}
+			continue
 		}
 		if a.sep != b.sep {
 			return int(b.sep) - int(a.sep) // Note: reversed compared to numeric. Nice.
